@@ -77,11 +77,11 @@ ApplyOp(P, o) ==
   CASE o.op = "syntax"   -> [P EXCEPT !.files[o.f].syntax = "bad"]
     [] o.op = "addInc"   -> [P EXCEPT !.files[o.f].incs = Append(@, o.x)]
     [] o.op = "addDef"   ->
-         CASE o.x.kind = "typedef" -> [P EXCEPT !.files[o.f].tds = Append(@, o.x.def)]
+        (CASE o.x.kind = "typedef" -> [P EXCEPT !.files[o.f].tds = Append(@, o.x.def)]
            [] o.x.kind = "const"   -> [P EXCEPT !.files[o.f].consts = Append(@, o.x.def)]
            [] o.x.kind = "enum"    -> [P EXCEPT !.files[o.f].enums = Append(@, o.x.def)]
            [] o.x.kind = "struct"  -> [P EXCEPT !.files[o.f].structs = Append(@, o.x.def)]
-           [] o.x.kind = "service" -> [P EXCEPT !.files[o.f].services = Append(@, o.x.def)]
+           [] o.x.kind = "service" -> [P EXCEPT !.files[o.f].services = Append(@, o.x.def)])
     [] o.op = "addField" -> [P EXCEPT !.files[o.f].structs[o.a].fields = Append(@, o.x)]
     [] o.op = "addArg"   -> [P EXCEPT !.files[o.f].services[o.a].funcs[o.b].args = Append(@, o.x)]
     [] o.op = "addThrow" -> [P EXCEPT !.files[o.f].services[o.a].funcs[o.b].throws = Append(@, o.x)]
@@ -251,12 +251,16 @@ TypePlaces(P, f, s, deep, t) ==
 BadTypeEdits(P, s, deep, rule) ==
   Flat([f \in 1..NF(P) |->
     Flat([a \in Idx(BadTypeRefs(P, f, s, rule)) |->
-      LET vr == BadTypeRefs(P, f, s, rule)[a] IN
-      Flat([b \in Idx(TypePlaces(P, f, s, deep, vr[2])) |->
-        LET where == TypePlaces(P, f, s, deep, vr[2])[b][1]
-            ws == Wraps(vr[2], deep \/ where = "struct")
-        IN [w \in Idx(ws) |->
-              Edit(rule, vr[1] \o "/" \o ws[w][1], f, where, 0, TypePlaces(P, f, s, deep, ws[w][2])[b][2])]])])])
+      LET vr == BadTypeRefs(P, f, s, rule)[a]
+          all == TypePlaces(P, f, s, deep, vr[2])
+          \* not deep: every place for the first kind of reference, typedef and struct for the others
+          bs == Sel(IdxSeq(all), LAMBDA b : deep \/ a = 1 \/ all[b][1] \in {"typedef", "struct"})
+      IN Flat([c \in Idx(bs) |->
+           LET b == bs[c]
+               where == all[b][1]
+               ws == Wraps(vr[2], deep \/ (where = "struct" /\ a = 1))
+           IN [w \in Idx(ws) |->
+                 Edit(rule, vr[1] \o "/" \o ws[w][1], f, where, 0, TypePlaces(P, f, s, deep, ws[w][2])[b][2])]])])])
 EUndefinedType(P, s, deep) == BadTypeEdits(P, s, deep, "undefinedType")
 ENonType(P, s, deep)       == BadTypeEdits(P, s, deep, "nonType")
 
@@ -268,18 +272,19 @@ ETypedefChain(P, s, deep) ==
   Flat([f \in 1..NF(P) |->
     LET F == FileOf(P, f)
         parents == Sel(Files(P), LAMBDA g : f \in Targets(P, g))
+        sp == IF deep \/ F.structs = <<>> THEN StructPos(F, deep) ELSE <<StructPos(F, deep)[1]>>
     IN Flat([len \in 1..3 |->
          LET E(variant, where, more) == Edit("typedefChain", variant, f, where, len, CycleDefs(f, s, len) \o more)
              deref == VId(<<CycleName(s, 1), "V">>)
          IN <<E("unused", "typedef", <<>>),
               E("constDerefs", "const", <<OpAddDef(f, DConst(N("Zk", s), TBase("i32"), deref))>>),
               E("constTyped", "const", <<OpAddDef(f, DConst(N("Zk", s), TRef("", CycleName(s, 1)), VInt))>>)>>
-            \o [a \in Idx(StructPos(F, deep)) |->
-                  E("defaultDerefs", F.structs[StructPos(F, deep)[a]].cat,
-                    <<OpAddField(f, StructPos(F, deep)[a], FldD(NewId(s), N("zf", s), TBase("i32"), deref))>>)]
-            \o [a \in Idx(StructPos(F, deep)) |->
-                  E("fieldTyped", F.structs[StructPos(F, deep)[a]].cat,
-                    <<OpAddField(f, StructPos(F, deep)[a], Fld(NewId(s), N("zf", s), TRef("", CycleName(s, 1))))>>)]
+            \o [a \in Idx(sp) |->
+                  E("defaultDerefs", F.structs[sp[a]].cat,
+                    <<OpAddField(f, sp[a], FldD(NewId(s), N("zf", s), TBase("i32"), deref))>>)]
+            \o [a \in Idx(sp) |->
+                  E("fieldTyped", F.structs[sp[a]].cat,
+                    <<OpAddField(f, sp[a], Fld(NewId(s), N("zf", s), TRef("", CycleName(s, 1))))>>)]
             \o [a \in Idx(parents) |->
                   E("includerDerefs", "const",
                     <<OpAddDef(parents[a], DConst(N("Zk", s), TBase("i32"), VId(<<F.prefix, CycleName(s, 1), "V">>)))>>)]])])
@@ -332,7 +337,7 @@ EAmbiguousConst(P, s, deep) ==
     Flat([a \in Idx(IncSeq(P, f)) |->
       LET inc == F.incs[IncSeq(P, f)[a]]
           cs == FirstOfKind(FileOf(P, inc.target), {"const"})
-      IN IF cs = <<>> \/ Named(F, inc.prefix) # {} THEN <<>>
+      IN IF cs = <<>> \/ HasAnyName(F, inc.prefix) THEN <<>>
          ELSE LET clash == OpAddDef(f, DEnum(inc.prefix, <<EVal(cs[1].name, TRUE, NewId(s), "")>>))
                   places == ValuePlaces(P, f, s, deep, TBase("i32"), VId(<<inc.prefix, cs[1].name>>))
               IN [b \in Idx(places) |-> Edit("ambiguousConst", "enumNamedLikeInclude", f, places[b][1], 0,
@@ -346,22 +351,26 @@ KindPairs(P, f, s, deep) ==
       sts == IF deep THEN IdxSeq(F.structs) ELSE StructPos(F, FALSE)
       allTd == Sel(IdxSeq(F.tds), LAMBDA i : Cat(P, f, F.tds[i].type).cat = "i32")
       tdI32 == IF deep \/ allTd = <<>> THEN allTd ELSE <<allTd[1]>>
-  IN [a \in Idx(ints) |-> <<"stringFor_" \o ints[a], TBase(ints[a]), S("s"), TRUE>>]
+  IN [a \in Idx(ints) |-> <<"stringFor_" \o ints[a], TBase(ints[a]), S("s"), ints[a] = "i32">>]
      \o <<<<"doubleFor_i32", TBase("i32"), VDbl, FALSE>>, <<"listFor_i32", TBase("i32"), VList(<<VInt>>), FALSE>>,
-          <<"mapFor_i32", TBase("i32"), VMap(<<<<S("k"), VInt>>>>), FALSE>>,
-          <<"intFor_string", TBase("string"), VInt, FALSE>>, <<"listFor_string", TBase("string"), VList(<<S("s")>>), FALSE>>,
-          <<"intFor_binary", TBase("binary"), VInt, FALSE>>,
-          <<"stringFor_bool", TBase("bool"), S("s"), FALSE>>, <<"stringFor_double", TBase("double"), S("s"), FALSE>>>>
+          <<"intFor_string", TBase("string"), VInt, FALSE>>, <<"stringFor_bool", TBase("bool"), S("s"), FALSE>>>>
+     \o (IF deep THEN <<<<"mapFor_i32", TBase("i32"), VMap(<<<<S("k"), VInt>>>>), FALSE>>,
+                        <<"listFor_string", TBase("string"), VList(<<S("s")>>), FALSE>>,
+                        <<"intFor_binary", TBase("binary"), VInt, FALSE>>,
+                        <<"stringFor_double", TBase("double"), S("s"), FALSE>>>>
+         ELSE <<>>)
      \o [a \in Idx(FirstOfKind(F, {"enum"})) |-> <<"stringFor_enum", TRef("", FirstOfKind(F, {"enum"})[a].name), S("s"), FALSE>>]
      \o [a \in Idx(tdI32) |-> <<"stringFor_typedefOf_i32", TRef("", F.tds[tdI32[a]].name), S("s"), FALSE>>]
      \o Flat([a \in Idx(sts) |->
            LET st == F.structs[sts[a]]
                t == TRef("", st.name)
                c == st.cat
-           IN <<<<"intFor_" \o c, t, VInt, FALSE>>, <<"stringFor_" \o c, t, S("s"), FALSE>>,
-                <<"listFor_" \o c, t, VList(<<VInt>>), FALSE>>,
-                <<"nonStringKeyIn_" \o c, t, VMap(<<<<VInt, VInt>>>>), TRUE>>,
-                <<"unknownFieldIn_" \o c, t, VMap(<<<<S(N("nope", s)), VInt>>>>), TRUE>>>>
+           IN <<<<"intFor_" \o c, t, VInt, FALSE>>,
+                <<"unknownFieldIn_" \o c, t, VMap(<<<<S(N("nope", s)), VInt>>>>), c = "struct">>>>
+              \o (IF deep \/ c = "struct"
+                  THEN <<<<"stringFor_" \o c, t, S("s"), FALSE>>, <<"listFor_" \o c, t, VList(<<VInt>>), FALSE>>,
+                         <<"nonStringKeyIn_" \o c, t, VMap(<<<<VInt, VInt>>>>), c = "struct">>>>
+                  ELSE <<>>)
               \o (IF Len(st.fields) > 0 /\ Cat(P, f, st.fields[1].type).cat \in IntCats
                   THEN <<<<"stringForFieldOf_" \o c, t, VMap(<<<<S(st.fields[1].name), S("s")>>>>), FALSE>>>>
                   ELSE <<>>)])
